@@ -77,6 +77,20 @@ func (vc *VC) call(fr *frame, st *State, site ssa.Instruction, c *ssa.CallCommon
 			return mkResult(vc.contractCall(fr, st, site, fpc, nil, args, ptypes, resT))
 		}
 	}
+	if ld, isLoad := c.Value.(*ssa.UnOp); isLoad && fr.top && vc.contract != nil && vc.contract.FParams != nil {
+		// a function value read from a captured variable of the closure under verification: its contract is given
+		// as an fparam of that name (and the function stored there is verified against the same clauses separately)
+		if fv, isFree := ld.X.(*ssa.FreeVar); isFree {
+			if fpc, ok := vc.contract.FParams[fv.Name()]; ok {
+				var ptypes []SType
+				sig := c.Signature()
+				for i := 0; i < sig.Params().Len(); i++ {
+					ptypes = append(ptypes, FromGo(sig.Params().At(i).Type()))
+				}
+				return mkResult(vc.contractCall(fr, st, site, fpc, nil, args, ptypes, resT))
+			}
+		}
+	}
 	if vc.contract != nil && vc.contract.Iterates != nil && c.Signature().Results().Len() == 1 {
 		// the only opaque function value a forwarder can call is its delegate
 		return vc.delegateCall(fr, st, site, args)
@@ -258,7 +272,8 @@ func (vc *VC) builtin(fr *frame, st *State, site ssa.Instruction, b *ssa.Builtin
 			return nil
 		}
 	case "close":
-		vc.fail("close unsupported")
+		vc.builtinClose(fr, st, site, vc.toTerm(args[0]))
+		return nil
 	case "print", "println":
 		return nil
 	}
@@ -560,6 +575,14 @@ func (vc *VC) contractEnv(st *State, old *Heap, fc *FuncContract, args []Value, 
 			name = fc.ParamNames[i]
 		}
 		env.vars[name] = TV{vc.specValue(a, ptypes[i]), ptypes[i]}
+	}
+	if strings.Contains(fc.Key, "$fparam:") {
+		// the contract of a function-typed parameter may mention the enclosing function's parameters and captured variables
+		for k, v := range vc.topParams {
+			if _, taken := env.vars[k]; !taken {
+				env.vars[k] = v
+			}
+		}
 	}
 	return env
 }
